@@ -33,7 +33,9 @@ PerByte(b16, len) == b16 \div ((len \div 16) + 1)      \* ~ bytes allocated per 
 ScaleClauses(e) ==
   LET pts == e.points
       len(i) == SegsLen(pts[i].segs)
-  IN UNION { F(pts[i].bytes16 <= K16 * len(i) + C16, "C20", "not_linear_" \o e.shape \o "_" \o e.fn \o "_n" \o ToString(pts[i].n))
+      \* b <= K16 * n + C16 without the product (TLC integers are 32 bits wide; documents reach megabytes)
+      linear(b, n) == b <= C16 \/ (b - C16 + K16 - 1) \div K16 <= n
+  IN UNION { F(linear(pts[i].bytes16, len(i)), "C20", "not_linear_" \o e.shape \o "_" \o e.fn \o "_n" \o ToString(pts[i].n))
              : i \in 1..Len(pts) }
      \cup UNION { F(PerByte(pts[i + 1].bytes16, len(i + 1)) <= 2 * PerByte(pts[i].bytes16, len(i)) + 64,
                     "C20", "superlinear_growth_" \o e.shape \o "_" \o e.fn)
